@@ -58,11 +58,14 @@ Preserves(route, d) == route # "skipped" \/ d.len = "zero"
 \*   nan-values: a stored feature with invalid values (and, as in all inputs, no
 \*     stored summaries): what the feature reports as minimum, maximum and mean
 \*     is the same before and after
+\*   sibling-output: plain content; the output of the first task is requested next
+\*     to the input under the input's stem with another suffix (in.tmp): the task
+\*     appends .rtdc and the input is left alone
 \*   mapped-basin: a file basin with twice the events and a mapping feature
 \*   nonscalar-internal-basin: an internal basin that offers only an
 \*     image-shaped feature, whose definition precedes the file basin's
 Extras == {"plain", "defective-time", "defective-aspect", "unknown-feature",
-           "nan-values", "mapped-basin", "nonscalar-internal-basin"}
+           "nan-values", "sibling-output", "mapped-basin", "nonscalar-internal-basin"}
 \* stored datasets the copy need not carry over (the dataset-level features
 \* must agree all the same)
 NotCarried(x) == CASE x = "defective-time" -> {"time"}
